@@ -287,7 +287,7 @@ pub const C05: ScenDef = ScenDef {
         keep_session_pct: 55,
         handshake_failures: 30,
         w_fault: 3,
-        w_deliver: 1,
+        w_deliver: 3,
         ..Profile::default()
     },
     nontrivial: |s, _| (s.fresh_with_inflight > 0 && s.resumed_with_inflight > 0) || (s.failed_handshakes > 0 && s.fresh_with_inflight + s.resumed_with_inflight > 0),
